@@ -40,12 +40,19 @@ def worker_init():
 
 def _gen_module(r, shared_names):
     """-> template text with {P} = prefix of library-level names, list of (fname, nparams, ret), has unused"""
-    gnames = [r.choice(shared_names["g"]) for _ in range(r.randint(0, 2))]
+    gnames = [r.choice(shared_names["g"]) for _ in range(r.randint(0, 3))]
     gnames = list(dict.fromkeys(gnames))
     fnames = list(dict.fromkeys(r.choice(shared_names["f"]) for _ in range(r.randint(1, 3))))
     L = []
     for g in gnames:
-        L.append(f"{{P}}{g} = d{r.randrange(6)}.{r.choice(INP)} + {r.randint(0, 9)}")
+        k = r.random()
+        if k < 0.6:
+            L.append(f"{{P}}{g} = d{r.randrange(6)}.{r.choice(INP)} + {r.randint(0, 9)}")
+        elif k < 0.8:
+            L.append(f"{{P}}{g} = (d{r.randrange(6)}.{r.choice(INP)} * 2) - (d{r.randrange(6)}.{r.choice(INP)} + {r.randint(1, 9)})")
+        else:
+            L.append(f"{{P}}{g} = {r.randint(2, 60)}")
+            L.append(f"{{P}}{g} += d{r.randrange(6)}.{r.choice(INP)}")
     funcs = []
     for k, f in enumerate(fnames):
         npar = r.randint(0, 3)
@@ -60,7 +67,9 @@ def _gen_module(r, shared_names):
         for g in wr:
             L.append(f"    {{P}}{g} = {{P}}{g} + {r.choice(ps) if ps else r.randint(1, 5)}")
         for g in gnames:
-            if r.random() < 0.5:
+            # read (almost) every module global from every function: a global that shares a register with another
+            # one or with a temporary of the module's top-level code shows up here
+            if r.random() < 0.85:
                 L.append(f"    d{r.randrange(6)}.{r.choice(CELLW)} = {{P}}{g}")
         if funcs and r.random() < 0.3:
             h = r.choice(funcs)
@@ -223,7 +232,7 @@ def check_case(case):
         # an effect of a library's __main__ block would already differ from the merged rendering (which has none)
         if problems:
             if trig is None:
-                trig = triggers_of(multi)
+                trig = sorted(set(triggers_of(multi)) | set(triggers_of(merged)))
             for p in problems:
                 p["triggers"] = trig
                 p["detail"] = dict(p["detail"], options=a.key, multi_code=a.code[:1500], merged_code=b.code[:1500])
